@@ -495,6 +495,61 @@ pub fn m3() -> InputFam {
     fam("M3-inconsistent", "semantic inconsistencies re-encoded with consistent size fields: level sequences over {0,1,2,3,65535} up to length 4; cel layer index out of range; link targets {self, later, empty, linked, tilemap, #frames, 65535}; payload element counts {0,n-1,n+1,2n} for raw/zlib/tilemap/tileset; tile ids out of range; zero tile sizes / tile counts / overflowing tile products; palette (first,last) grid; damaged zlib streams; cel/layer kind mismatches; missing tileset; duplicate cel; dangling or surplus user data; counts above the entries present; string lengths beyond the chunk; non-UTF-8 names; frame count / frame size / chunk size lies; huge declared dimensions; 3 pixel formats", v)
 }
 
+/// M7: program-level faults: every chunk deleted, duplicated, swapped with its successor, moved to
+/// the end of the next frame, retyped to each other known chunk type; every frame dropped / duplicated
+pub fn m7() -> InputFam {
+    let mut v: Vec<(String, Vec<u8>)> = Vec::new();
+    let mut files: Vec<(String, File)> = gen::bases().into_iter().map(|(n, f)| (n.to_string(), f)).collect();
+    files.push(("d1i".into(), gen::d1(&Fmt::Indexed(4))));
+    files.push(("d1".into(), gen::d1(&Fmt::Rgba)));
+    let types: [u16; 14] = [0x0004, 0x0011, 0x2004, 0x2005, 0x2006, 0x2007, 0x2008, 0x2016, 0x2017, 0x2018, 0x2019, 0x2020, 0x2022, 0x2023];
+    for (bn, base) in &files {
+        for fi in 0..base.frames.len() {
+            let n = base.frames[fi].chunks.len();
+            for ci in 0..n {
+                let kind = base.frames[fi].chunks[ci].body.kind_name();
+                let mut f = base.clone();
+                f.frames[fi].chunks.remove(ci);
+                v.push((format!("{} delete frame{} chunk{} ({})", bn, fi, ci, kind), f.encode()));
+                let mut f = base.clone();
+                let c = f.frames[fi].chunks[ci].clone();
+                f.frames[fi].chunks.insert(ci, c);
+                v.push((format!("{} duplicate frame{} chunk{} ({})", bn, fi, ci, kind), f.encode()));
+                if ci + 1 < n {
+                    let mut f = base.clone();
+                    f.frames[fi].chunks.swap(ci, ci + 1);
+                    v.push((format!("{} swap frame{} chunk{} ({}) with its successor", bn, fi, ci, kind), f.encode()));
+                }
+                if base.frames.len() > 1 {
+                    let mut f = base.clone();
+                    let c = f.frames[fi].chunks.remove(ci);
+                    let to = (fi + 1) % base.frames.len();
+                    f.frames[to].chunks.push(c);
+                    v.push((format!("{} move frame{} chunk{} ({}) to the end of frame {}", bn, fi, ci, kind, to), f.encode()));
+                }
+                for t in types {
+                    if t != base.frames[fi].chunks[ci].body.type_code() {
+                        let mut f = base.clone();
+                        f.frames[fi].chunks[ci].ty = Some(t);
+                        v.push((format!("{} retype frame{} chunk{} ({}) as {:#06x}", bn, fi, ci, kind, t), f.encode()));
+                    }
+                }
+            }
+            let mut f = base.clone();
+            f.frames.remove(fi);
+            v.push((format!("{} drop frame {}", bn, fi), f.encode()));
+            let mut f = base.clone();
+            let fr = f.frames[fi].clone();
+            f.frames.insert(fi, fr);
+            v.push((format!("{} duplicate frame {}", bn, fi), f.encode()));
+            let mut f = base.clone();
+            f.frames[fi].chunks.reverse();
+            v.push((format!("{} reverse the chunks of frame {}", bn, fi), f.encode()));
+        }
+    }
+    fam("M7-program", "program-level faults on b1..b4 and D1 (indexed, RGBA), re-encoded with consistent sizes: every chunk deleted / duplicated / swapped with its successor / moved to the end of the next frame / retyped as each of the 13 other known chunk types; every frame dropped / duplicated / its chunks reversed", v)
+}
+
 /// M5: tiny and constant inputs
 pub fn m5() -> InputFam {
     let mut v: Vec<(String, Vec<u8>)> = vec![("empty".into(), vec![])];
@@ -665,6 +720,7 @@ pub fn all_families(tier: Tier) -> Vec<InputFam> {
         }));
     }
     v.push(m3());
+    v.push(m7());
     v.extend(m4(&gen_bases));
     v.push(m5());
     v.push(m6());
